@@ -5,6 +5,6 @@ cd /repo || exit 2
 git diff --quiet || { echo "/repo has uncommitted changes"; exit 2; }
 git apply --3way "$patch" 2>/dev/null || git apply "$patch" || { echo "PATCH DOES NOT APPLY: $patch"; git checkout -- . ; exit 3; }
 git reset -q 2>/dev/null
-cd /verif && ./check "$prop" "$tier" 2>&1 | grep -E "^(VIOLATION|KNOWN|SUMMARY|CHECK-BROKEN|INCONCLUSIVE)" | cut -c1-400
+cd /verif && ./check "$prop" "$tier" 2>&1 | grep -a -E "^(VIOLATION|KNOWN|SUMMARY|CHECK-BROKEN|INCONCLUSIVE)" | cut -c1-400
 rc=$?
 git -C /repo checkout -- . ; git -C /repo clean -fdq
